@@ -107,7 +107,10 @@ def mk_field(base, name, of=""):
     # `x?` on an Option whose variant is not known: (branch(x) as Continue).0 is (x as Some).0
     if base[0] == "variant" and base[1][0] == "trybranch" and name in ("0", 0):
         if base[2] == "Continue":
-            return mk_field(("variant", base[1][1], "Some", 1), "0", "")
+            inner = base[1][1]
+            if inner[0] == "optpay":
+                return inner[2]
+            return mk_field(("variant", inner, "Some", 1), "0", "")
         if base[2] == "Break":
             return mk_agg("adt", "core::option::Option", "None", 0, ())
     if base[0] == "variant" and base[1][0] == "agg":
@@ -134,8 +137,10 @@ def mk_cast(kind, e, tykind):
 def mk_discr(e, enum_discr=None):
     if e[0] == "optpay":
         return ("discr", e[1])
-    if e[0] == "agg" and (e[2] in SAFE_DISCR_ADTS or (enum_discr and e[2] in enum_discr)):
+    if e[0] == "agg" and e[2] in SAFE_DISCR_ADTS:
         return const(e[4])
+    if e[0] == "agg" and enum_discr and e[2] in enum_discr and e[4] in enum_discr[e[2]]:
+        return const(enum_discr[e[2]][e[4]])
     return ("discr", e)
 
 
@@ -186,6 +191,11 @@ def mk_call(site, callee, args, argtys=None):
     how = IDENTITY.get(d)
     if how == "arg0" and args:
         return args[0]
+    # `IntoIterator::into_iter` of something that already is an iterator is the blanket identity impl
+    if d == "core::iter::IntoIterator::into_iter" and args and callee and callee.get("resolved") == "<I as core::iter::IntoIterator>::into_iter":
+        st0 = callee.get("self_ty") or {}
+        if (st0.get("adt") or "").startswith("cactusref::") or (st0.get("adt") or "").startswith("core::iter::adapters"):
+            return args[0]
     if how == "deref0" and args:
         return mk_deref(args[0])
     if d in CONVERT and args and callee:
@@ -214,6 +224,12 @@ def mk_call(site, callee, args, argtys=None):
             if a[3] == "Ok":
                 return mk_agg("adt", "core::ops::ControlFlow", "Continue", 0, (("0", a[5][0][1]),))
             return mk_agg("adt", "core::ops::ControlFlow", "Break", 1, (("0", a),))
+    # the value slot of an occupied hash-map entry is one cell, whichever accessor names it
+    if d.startswith("hashbrown::hash_map::OccupiedEntry::<") and d.rsplit("::", 1)[1] in ("get", "get_mut", "into_mut") and args:
+        e = args[0]
+        if e[0] == "ref":
+            e = e[1]
+        return mk_ref(("entryval", e))
     if d == "core::ops::Try::branch" and args and callee and (callee.get("self_ty") or {}).get("adt") == "core::option::Option" and (callee.get("self_ty") or {}).get("peel", 0) == 0:
         return ("trybranch", args[0])
     if d == "core::ops::FromResidual::from_residual" and callee and (callee.get("self_ty") or {}).get("adt") == "core::option::Option" and (callee.get("self_ty") or {}).get("peel", 0) == 0:
@@ -222,6 +238,14 @@ def mk_call(site, callee, args, argtys=None):
         return args[0][5][0][1]
     if d in ("core::option::Option::<T>::unwrap", "core::option::Option::<T>::expect", "core::option::Option::<T>::unwrap_unchecked") and args and args[0][0] == "agg" and args[0][3] == "Some":
         return args[0][5][0][1]
+    if d in ("core::option::Option::<T>::unwrap_or_default", "core::option::Option::<T>::unwrap_or") and args and args[0][0] == "agg" and args[0][2] == "core::option::Option":
+        if args[0][3] == "Some":
+            return args[0][5][0][1]
+        if d.endswith("unwrap_or") and len(args) > 1:
+            return args[1]
+        targ = ((callee or {}).get("targs") or [{}])[0]
+        if targ.get("k") == "int":
+            return const(0)
     if d.startswith("core::num::<impl usize>::checked_") and len(args) == 2 and is_const(args[0]) and is_const(args[1]):
         x, y = int(args[0][1]), int(args[1][1])
         r = None
@@ -257,7 +281,7 @@ def children(e):
         return tuple(x for _, x in e[5])
     if k in ("param", "unk", "const", "fn"):
         return ()
-    if k in ("field", "variant", "deref", "ref", "discr", "idx", "content", "content_of_guard", "repeat", "proj", "stepped", "trybranch"):
+    if k in ("field", "variant", "deref", "ref", "discr", "idx", "content", "content_of_guard", "repeat", "proj", "stepped", "trybranch", "entryval"):
         return (e[1],)
     if k == "cast":
         return (e[2],)
